@@ -75,6 +75,8 @@ class Kotlin:
 
     def abi(self, tok, depth=0):
         tok = tok.strip()
+        if tok == "Boolean" and depth > 0:
+            return "(AI 4 true)"      # JNA lays a boolean *field* of a Structure / Union out as a 32-bit int; only Byte matches a C bool there
         if tok in KT_PRIM: return KT_PRIM[tok]
         if tok in self.classes and depth < 8:
             kind, fields = self.classes[tok]
@@ -102,7 +104,7 @@ def check(ctx, replay=None):
     goals, meta, viol, nfun, samples = [], [], 0, 0, []
     def violate(key, obj):
         nonlocal viol
-        if viol < 4:
+        if len(ctx.violations) < 4:
             viol += 1
             ctx.violation(key, obj, True)
     for bi in range(2 if ctx.quick() else 10):
@@ -115,6 +117,13 @@ def check(ctx, replay=None):
             # every write-out return shape, with parameters before the writer and on every kind of receiver
             for wi, (selfk, ps) in enumerate(((None, []), ("ref", [("a", ("prim", "u8"))]), ("mut", [("a", ("prim", "i64")), ("b", ("prim", "f32"))]))):
                 methods.append({"name": f"woptunit{wi}", "self": selfk, "params": ps, "ret": ("optunit",), "write": True, "rets": [None, True, None]})
+            # every primitive as the payload of an optional / fallible return and as a plain return (record shapes per primitive)
+            for pn in abigen.PRIMS:
+                if pn in ("i128", "u128"):
+                    continue
+                for nm, selfk, ps, rt in ((f"optp_{pn}", "ref", [], ("opt", "std", ("prim", pn))), (f"resp_{pn}", None, [("a", ("prim", pn))], ("res", ("prim", pn), ("unit",))),
+                                          (f"rese_{pn}", "ref", [], ("res", ("unit",), ("prim", pn)))):
+                    methods.append({"name": nm, "self": selfk, "params": ps, "ret": rt, "write": False, "rets": [mod.rand_value(rt) for _ in range(3)]})
             src = abigen.rust_source(mod, methods)
             path = os.path.join(d, f"{backend}{bi}.rs"); open(path, "w").write(src)
             out = os.path.join(d, f"out_{backend}")
@@ -175,4 +184,4 @@ def check(ctx, replay=None):
         "classes and compared in Coq with what the macro compiles (Kotlin up to signedness). distinct_nontrivial = native function declarations examined",
         "Modelled, not verified: see C01 (Abi/Model.v) plus the meaning of dart:ffi and JNA type names (dart_name_abi, kt_name_abi); gen/Tables.v "
         "regenerated from the Dart and Kotlin formatters. No Dart/Kotlin toolchain exists here: declarations are compared as declarations, nothing is executed",
-        samples, ["Kotlin `Boolean` parameters are taken to denote a C bool"], {"functions": nfun})
+        samples, ["Kotlin `Boolean` parameters are taken to denote a C bool (JNA passes an int whose low byte is the bool); a `Boolean` field of a JNA Structure is a 32-bit int and is classified as such"], {"functions": nfun})
